@@ -11,6 +11,7 @@ import (
 	"reflect"
 	"sort"
 	"strings"
+	"sync"
 	"time"
 
 	"github.com/hashicorp/terraform-plugin-framework/attr"
@@ -74,7 +75,9 @@ var (
 // ---------------------------------------------------------------------------------------
 // Go values: real -> abstract
 
-func isBytes(t reflect.Type) bool { return t.Kind() == reflect.Slice && t.Elem().Kind() == reflect.Uint8 }
+func isBytes(t reflect.Type) bool {
+	return t.Kind() == reflect.Slice && t.Elem().Kind() == reflect.Uint8
+}
 
 // structFields lists the regular fields of a struct type with by-value embedded structs flattened.
 type sfield struct {
@@ -346,6 +349,10 @@ func DumpTy(t attr.Type) *TY {
 		}
 		return o
 	case support.TimeType:
+		if t != support.UseRFC3339Time() {
+			// not what the configured type_constructor returns (e.g. the zero literal TimeType{})
+			return otherTy(fmt.Sprintf("other:TimeType{Format:%q}", t.Format), t)
+		}
 		return &TY{K: "time"}
 	case support.DurationType:
 		return &TY{K: "dur"}
@@ -366,7 +373,16 @@ func DumpTy(t attr.Type) *TY {
 	case types.NumberType:
 		return &TY{K: "num"}
 	}
-	return &TY{K: "other:" + fmt.Sprintf("%T", t)}
+	return otherTy("other:"+fmt.Sprintf("%T", t), t)
+}
+
+// otherTypes remembers the types the abstract view has no name for, so that a schema holding one can
+// still be turned back into attribute types (the oracles see the name and object to it).
+var otherTypes sync.Map
+
+func otherTy(k string, t attr.Type) *TY {
+	otherTypes.Store(k, t)
+	return &TY{K: k}
 }
 
 // BuildTy converts back.
@@ -396,6 +412,9 @@ func BuildTy(t *TY) attr.Type {
 		return types.ObjectType{AttrTypes: BuildAttrTypes(t)}
 	case "niltype":
 		return nil
+	}
+	if o, ok := otherTypes.Load(t.K); ok {
+		return o.(attr.Type)
 	}
 	panic("BuildTy: " + t.K)
 }
